@@ -134,6 +134,9 @@ var atomicTypes = map[string]bool{"Value": true, "Bool": true, "Int32": true, "I
 var forbidden = map[string]bool{
 
 	"sync.OnceFunc": true, "sync.OnceValue": true, "sync.OnceValues": true,
+	// finalizers and cleanups run on a goroutine of the runtime, at a time the collector chooses: outside what the
+	// simulator controls
+	"runtime.SetFinalizer": true, "runtime.AddCleanup": true,
 
 	"net.DialTimeout": true, "net.Listen": true, "net.DialTCP": true,
 	"context.WithCancelCause": true, "context.WithTimeoutCause": true, "context.WithDeadlineCause": true,
@@ -424,11 +427,87 @@ func (r *rewriter) rewriteStmt(st ast.Stmt) []ast.Stmt {
 		if h == nil || isNilNode(h) {
 			continue
 		}
-		for _, c := range r.atomicCallsIn(h) {
+		calls := r.atomicCallsIn(h)
+		if len(calls) >= 2 && r.canHoistAtomics(st, h, calls) {
+			// Several atomic operations in one statement (x.CompareAndSwap(old, y.Load())) are separate steps for
+			// other goroutines: all but the one evaluated last are moved into temporaries, in evaluation order,
+			// each behind its own scheduling point.
+			sort.Slice(calls, func(i, j int) bool { return calls[i].End() < calls[j].End() })
+			repl := map[*ast.CallExpr]*ast.Ident{}
+			for _, c := range calls[:len(calls)-1] {
+				tmp := r.tmp("a")
+				repl[c] = tmp
+			}
+			astutil.Apply(h, nil, func(cur *astutil.Cursor) bool {
+				if ce, ok := cur.Node().(*ast.CallExpr); ok {
+					if id, ok := repl[ce]; ok {
+						cur.Replace(id)
+					}
+				}
+				return true
+			})
+			for _, c := range calls[:len(calls)-1] {
+				pre = append(pre, &ast.ExprStmt{X: r.call("AtomicPoint", r.newSite(c.Pos(), "atomic-method", false))})
+				pre = append(pre, &ast.AssignStmt{Lhs: []ast.Expr{repl[c]}, Tok: token.DEFINE, Rhs: []ast.Expr{c}})
+			}
+			last := calls[len(calls)-1]
+			pre = append(pre, &ast.ExprStmt{X: r.call("AtomicPoint", r.newSite(last.Pos(), "atomic-method", false))})
+			continue
+		}
+		for _, c := range calls {
 			pre = append(pre, &ast.ExprStmt{X: r.call("AtomicPoint", r.newSite(c.Pos(), "atomic-method", false))})
 		}
 	}
 	return append(pre, r.rewriteStmt1(st)...)
+}
+
+// canHoistAtomics: moving the atomic calls of head h out of statement st keeps the meaning if nothing else in h has
+// side effects or is evaluated conditionally: no other calls (conversions and len/cap aside), no receives, no && or
+// ||, no function literals; and the statement must be one in front of which statements can be placed.
+func (r *rewriter) canHoistAtomics(st ast.Stmt, h ast.Node, calls []*ast.CallExpr) bool {
+	switch s := st.(type) {
+	case *ast.ExprStmt, *ast.AssignStmt, *ast.ReturnStmt:
+	case *ast.IfStmt:
+		if s.Init != nil || h != ast.Node(s.Cond) {
+			return false
+		}
+	default:
+		return false
+	}
+	atomic := map[*ast.CallExpr]bool{}
+	for _, c := range calls {
+		atomic[c] = true
+	}
+	ok := true
+	ast.Inspect(h, func(n ast.Node) bool {
+		switch x := n.(type) {
+		case *ast.FuncLit:
+			ok = false
+		case *ast.UnaryExpr:
+			if x.Op == token.ARROW {
+				ok = false
+			}
+		case *ast.BinaryExpr:
+			if x.Op == token.LAND || x.Op == token.LOR {
+				ok = false
+			}
+		case *ast.CallExpr:
+			if atomic[x] {
+				return true
+			}
+			if tv, found := r.info.Types[x.Fun]; found && tv.IsType() {
+				return true // conversion
+			}
+			if id, isId := x.Fun.(*ast.Ident); isId {
+				if _, isBuiltin := r.info.Uses[id].(*types.Builtin); isBuiltin && (id.Name == "len" || id.Name == "cap") {
+					return true
+				}
+			}
+			ok = false
+		}
+		return ok
+	})
+	return ok
 }
 
 func isNilNode(n ast.Node) bool {
